@@ -307,20 +307,10 @@ PROPS = {
         tables=["parse"],
         determined=True,
         technique="Lean 4 theorems: array/object mapped iterators yield exactly the pre-order indices of their items/entries/keys/values given a well-formed volume column (never panicking), get_fragment = i-th pre-order fragment or remaining distance, explicit-stack traversal = pre-order; differential navigation of every container, key and fragment index of parsed documents",
-        level_text=("Proof on the model for every navigation API except the typed conversions. For all values and positions, under the hypothesis that the code map's volume column is that of a well-formed code map — which C05 now PROVES for every parsed document (parse_volumes; C11_parsed_array / C11_parsed_object compose the two) — : C11_array/C11_array_fragments and C11_object (iter_mapped never panics and yields exactly the pre-order index of each item / entry / key / value), C11_keyed (get_mapped*, get_unique_mapped*, get_mapped_entries*: under the C06 index invariant, which every reachable object has, they never panic and yield for exactly the entries carrying the key, in entry order, the index and the offsets iter_mapped assigns to that entry — the advance loop over (last_index, offset) is proved by induction), C11_get_fragment (i-th fragment of the traversal, or Err(i − size) past the end), C11_traverse (the explicit-stack traversal is the pre-order, one step per fragment). Not proved in Lean: the TryFromJson / TryFromJsonObject conversions (trait-generic code); they are modelled per type and compared: 14 conversion types over Vec/BTreeMap/Option/Box with a wrong-kind value planted at every position (error offset compared). Tie to /repo: for every parsed document (all valid token documents of <= 5 tokens, 3000 generated documents) every array/object's iterators, every key incl. an absent and duplicated ones through all keyed variants, every fragment index 0..|T|+2, traversal/volume/count. Direct oracle on the real code: the source text sliced at each yielded offset's span re-parses to that element."),
+        level_text=("FULL proof on the model. For all values and positions, under the hypothesis that the code map's volume column is that of a well-formed code map — which C05 PROVES for every parsed document (parse_volumes; C11_parsed_array / C11_parsed_object / C11_parsed_conversion compose the two) — : C11_array/C11_array_fragments and C11_object (iter_mapped never panics and yields exactly the pre-order index of each item / entry / key / value), C11_keyed (get_mapped*, get_unique_mapped*, get_mapped_entries*: under the C06 index invariant, which every reachable object has, they never panic and yield for exactly the entries carrying the key, in entry order, the index and the offsets iter_mapped assigns to that entry — the advance loop over (last_index, offset) is proved by induction), C11_get_fragment (i-th fragment of the traversal, or Err(i − size) past the end), C11_traverse (the explicit-stack traversal is the pre-order, one step per fragment), C11_conversion (TryFromJson for bool/String/unit/u8, Vec<T>, BTreeMap<String,T>, Option<T>, Box<T> nested at will: never panics and equals a fragment-counting specification that does not look at the code map) and C11_conversion_error (a failed conversion reports the offset of the offending fragment: the pre-order index of a value fragment that the sub-conversion reaching it rejects at its root). The conversion impls are trait-generic code; the model instantiates them for a type-descriptor family (CTy). Tie to /repo: for every parsed document (all valid token documents of <= 5 tokens, 3000 generated documents) every array/object's iterators, every key incl. an absent and duplicated ones through all keyed variants, every fragment index 0..|T|+2, traversal/volume/count; 14 conversion types with a wrong-kind value planted at every position (error offset compared). Direct oracle on the real code: the source text sliced at each yielded offset's span re-parses to that element."),
         level_note="Trusted: Lean kernel; model validated by correspondence; depends on C05 for the volume column (tested jointly since the code map comes from the real parser).",
         rule="request = document (navigation) or type+document (conversion); reply = all offsets / fragment kinds / error offset. Non-trivial = documents with more than one fragment, all conversions; distinct request lines",
-        strength='iterators, keyed lookups, fragment index and traversal proved (and composed with the proved C05 code map); typed conversions tested',
-        trusted_base=COMMON_TRUST,
-        assumptions=["the code map is the one returned by parsing the same value (offset 0 = root)"],
-    ),
-
-    "C16": dict(
-        tables=[],
-        determined=True,
-        projection_determined=lambda case, reply: number_value_projection(case, reply),
-
-        technique="Lean 4 theorems about a model of the serde Serializer (JSON shape of every data-model construct, structs = ordered objects, key serializer) fed with data recorded from real derive output; end-to-end round trips through to_value/from_value/serde_json on a family of derive-annotated types (direct oracles)",
+        strength='full on the model: iterators, keyed lookups, fragment index, traversal and typed conversions (type-descriptor family) proved, composed with the proved C05 code map; tie to the code by correspondence',
         level_text=("PARTIAL proof. A recording serde::Serializer in the harness turns each generated Rust datum into SData (what the datum looks like to a Serializer, as produced by the real serde-derive code); the Lean model `ser` of src/serde/ser.rs "
                     "(Serializer, KeySerializer, StringNumberSerializer, compound serializers, the number-token channel, Object::insert semantics) must return exactly json_syntax::to_value(datum) — this ties the model to ser.rs on every run. "
                     "Proved in Lean: C16_shape (null/transparent/externally-tagged/array shapes of every construct, as serde_json documents them), C16_struct (distinct field names, none the private token: ordered object of the fields), C16_map_keys (which key types are accepted and their string form). "
